@@ -1,73 +1,18 @@
-import FiberModel.C17.ExecInv
+import FiberModel.C17.FullInv
 import FiberModel.C17.Known
 /-
-C17 — property theorems (only). All of them quantify over every lifetime, every assignment of
-requests to threads (unboundedly many threads, any keys, with or without key, failing or succeeding
-handlers) and EVERY schedule: any interleaving of the atomic steps of the threads (including the
-internal steps of MemoryLock.Lock / Unlock), storage and lock faults at any call, and clock ticks of
-any length (`(sys life).Reach (init reqs t0) g`).
+C17 — property theorems (only). All of them quantify over every lifetime, every KeepResponseHeaders
+setting, every assignment of requests to threads (unboundedly many threads, any keys, with or without
+key / safe method, invalid keys, failing or succeeding handlers, any response) and EVERY schedule: any
+interleaving of the atomic steps of the threads (including the internal steps of MemoryLock.Lock /
+Unlock), a fault at any Storage.Get / Lock.Lock / Storage.Set / Lock.Unlock call, and clock ticks of
+any length (`(sys life).Reach (init reqs t0 keep) g`).
 -/
 namespace C17
 open Conc
 
-structure Full (life : Nat) (g : G) : Prop where
-  lock : LInv g
-  exec : EInv life g
-  /-- a thread in the keyed flow has a key -/
-  keyed : ∀ t, (g.threads t).pc ≠ .idle → (g.threads t).pc ≠ .atHandlerB → (g.threads t).pc ≠ .done →
-    ∃ k, (g.threads t).req.key = some k
-  /-- a request the middleware stepped aside for ends having run the handler -/
-  byp : ∀ t, (g.threads t).req.key = none → (g.threads t).req.invalid = false → (g.threads t).pc = .done →
-    (g.threads t).ran = true
-
-theorem linv_tick {g : G} (d : Nat) (hi : LInv g) : LInv { g with now := g.now + d } :=
-  ⟨hi.ptr, hi.users, hi.nodup, hi.count, hi.holder, hi.freshK, hi.freshT, hi.inj⟩
-
-theorem keyed_step {life : Nat} {g g' : G} {t : Tid}
-    (hk : ∀ t, (g.threads t).pc ≠ .idle → (g.threads t).pc ≠ .atHandlerB → (g.threads t).pc ≠ .done →
-      ∃ k, (g.threads t).req.key = some k) (hs : Step life g t g') :
-    ∀ t, (g'.threads t).pc ≠ .idle → (g'.threads t).pc ≠ .atHandlerB → (g'.threads t).pc ≠ .done →
-      ∃ k, (g'.threads t).req.key = some k := by
-  intro t' h1 h2 h3
-  by_cases ht : t' = t
-  · subst ht
-    cases hs <;> simp_all
-    all_goals first
-      | (rename_i hpc; exact hk t' (by simp [hpc]) (by simp [hpc]) (by simp [hpc]))
-      | skip
-  · have : g'.threads t' = g.threads t' := by cases hs <;> simp [setThread_threads_ne _ _ ht]
-    rw [this] at h1 h2 h3 ⊢
-    exact hk t' h1 h2 h3
-
-theorem byp_step {life : Nat} {g g' : G} {t : Tid}
-    (hk : ∀ t, (g.threads t).pc ≠ .idle → (g.threads t).pc ≠ .atHandlerB → (g.threads t).pc ≠ .done →
-      ∃ k, (g.threads t).req.key = some k)
-    (hb : ∀ t, (g.threads t).req.key = none → (g.threads t).req.invalid = false → (g.threads t).pc = .done →
-      (g.threads t).ran = true) (hs : Step life g t g') :
-    ∀ t, (g'.threads t).req.key = none → (g'.threads t).req.invalid = false → (g'.threads t).pc = .done →
-      (g'.threads t).ran = true := by
-  intro t' h1 h2 h3
-  by_cases ht : t' = t
-  · subst ht
-    cases hs <;> simp_all
-    all_goals
-      rename_i hpc
-      obtain ⟨k, hk'⟩ := hk t' (by simp [hpc]) (by simp [hpc]) (by simp [hpc])
-      simp_all
-  · have : g'.threads t' = g.threads t' := by cases hs <;> simp [setThread_threads_ne _ _ ht]
-    rw [this] at h1 h2 h3 ⊢
-    exact hb t' h1 h2 h3
-
-theorem full_reach (life : Nat) (reqs : Tid → Req) (t0 : Nat) {g : G}
-    (h : (sys life).Reach (init reqs t0) g) : Full life g := by
-  refine Conc.inv_reach (sys life) (Full life) ?_ ⟨linv_init reqs t0, einv_init life reqs t0, ?_, ?_⟩ h
-  · intro g a g' hf hs
-    rcases step_cases life hs with ⟨d, _, rfl⟩ | ⟨t, _, hst⟩
-    · exact ⟨linv_tick d hf.lock, einv_tick d hf.exec, hf.keyed, hf.byp⟩
-    · exact ⟨linv_step life hf.lock hst, einv_step life hf.lock hf.exec hst, keyed_step hf.keyed hst,
-        byp_step hf.keyed hf.byp hst⟩
-  · intro t h1; simp [init] at h1
-  · intro t _ _ h3; simp [init] at h3
+def exReq : Req := { key := some 0, invalid := false, fails := false,
+                     resp := ⟨201, "created", [("X-A", "1"), ("Set-Cookie", "s=1"), ("x-a", "2")]⟩ }
 
 /-! ### MemoryLock -/
 
@@ -77,8 +22,8 @@ deletions and re-creations of the map entry); (2) a key's map entry is absent on
 between `locked++` and `locked--` for that key — i.e. an entry is deleted only when no thread holds
 or waits on it; (3) all threads counted on a key point at the entry currently in the map, and its
 counter is their number. -/
-theorem memorylock_mutex (life : Nat) (reqs : Tid → Req) (t0 : Nat) {g : G}
-    (h : (sys life).Reach (init reqs t0) g) :
+theorem memorylock_mutex (life : Nat) (reqs : Tid → Req) (t0 : Nat) (keep : Option (List String)) {g : G}
+    (h : (sys life).Reach (init reqs t0 keep) g) :
     (∀ t t' k, holds (g.threads t).pc = true → holds (g.threads t').pc = true →
       (g.threads t).req.key = some k → (g.threads t').req.key = some k → t = t') ∧
     (∀ k, g.keys k = none → ∀ t, (g.threads t).req.key = some k → inLock (g.threads t).pc = false) ∧
@@ -87,7 +32,7 @@ theorem memorylock_mutex (life : Nat) (reqs : Tid → Req) (t0 : Nat) {g : G}
         (g.locks (g.threads t).lk).locked = (g.locks (g.threads t).lk).users.length ∧
         (∀ t', t' ∈ (g.locks (g.threads t).lk).users ↔
           (inLock (g.threads t').pc = true ∧ (g.threads t').lk = (g.threads t).lk))) := by
-  have hf := full_reach life reqs t0 h
+  have hf := full_reach life reqs t0 keep h
   refine ⟨fun t t' k h1 h2 k1 k2 => holders_eq hf.lock h1 h2 k1 k2, fun k hk t hkt => ?_, fun t hin => ?_⟩
   · cases hin : inLock (g.threads t).pc with
     | false => rfl
@@ -117,10 +62,10 @@ def AtMostOnce (life : Nat) (g : G) (t1 t2 : Tid) : Prop :=
 executing the handler for key k, every *other* request of key k whose handler completed successfully
 — and whose response was not lost by a failing `Storage.Set` (K1) — completed at least a lifetime
 ago; and no other request of key k is executing at the same time. -/
-theorem at_most_one_success_partial (life : Nat) (reqs : Tid → Req) (t0 : Nat) {g : G}
-    (h : (sys life).Reach (init reqs t0) g) (t1 t2 : Tid) (hK : Known.K1 g t1 = false) :
+theorem at_most_one_success_partial (life : Nat) (reqs : Tid → Req) (t0 : Nat) (keep : Option (List String)) {g : G}
+    (h : (sys life).Reach (init reqs t0 keep) g) (t1 t2 : Tid) (hK : Known.K1 g t1 = false) :
     AtMostOnce life g t1 t2 := by
-  have hf := full_reach life reqs t0 h
+  have hf := full_reach life reqs t0 keep h
   intro k hne hex hk2 hk1 hran hnf
   obtain ⟨_, hcase⟩ := hf.exec.succ t1 k hran hnf hk1
   have hh2 : holds (g.threads t2).pc = true := by
@@ -135,7 +80,7 @@ theorem at_most_one_success_partial (life : Nat) (reqs : Tid → Req) (t0 : Nat)
 
 /-- K1 witness: thread 0 executes, its Set fails, thread 1 executes in the same second. -/
 theorem at_most_one_success_witness_K1 :
-    ¬ AtMostOnce 5 ((sys 5).run (init (fun _ => ⟨some 0, false, false⟩) 100)
+    ¬ AtMostOnce 5 ((sys 5).run (init (fun _ => { key := some 0, invalid := false, fails := false }) 100)
         (List.replicate 7 (.thr 0) ++ [.fault 0] ++ List.replicate 4 (.thr 0) ++ List.replicate 7 (.thr 1))) 0 1 := by
   intro h
   have := h 0 (by decide) (by decide) (by decide) (by decide) (by decide) (by decide)
@@ -144,17 +89,21 @@ theorem at_most_one_success_witness_K1 :
 
 /-- non-vacuity of the partial theorem: the same schedule without the fault, after the lifetime has
 passed thread 1 executes again, and the hypotheses of `AtMostOnce` hold for (0, 1) -/
-def exA : G := (sys 5).run (init (fun _ => ⟨some 0, false, false⟩) 100)
+def exA : G := (sys 5).run (init (fun _ => { key := some 0, invalid := false, fails := false }) 100)
   (List.replicate 12 (Act.thr 0) ++ [Act.tick 5] ++ List.replicate 7 (Act.thr 1))
 
 example : Known.K1 exA 0 = false ∧ execRegion (exA.threads 1).pc = true ∧ (exA.threads 0).ran = true ∧
     (exA.threads 0).doneAt + 5 ≤ exA.now := by decide
 
-/-- **successes_a_lifetime_apart.** Under every schedule: two different requests of the same key
+/-
+Full statement (FALSE on the unchanged tree for the same reason, K1): the same without the two
+`Known.K1 … = false` hypotheses.
+-/
+/-- **successes_a_lifetime_apart_partial.** Under every schedule: two different requests of the same key
 whose handlers both completed successfully, and neither of whose responses was lost by a failing
 `Storage.Set` (K1), completed at least a lifetime apart. -/
-theorem successes_a_lifetime_apart (life : Nat) (reqs : Tid → Req) (t0 : Nat) {g : G}
-    (h : (sys life).Reach (init reqs t0) g) :
+theorem successes_a_lifetime_apart_partial (life : Nat) (reqs : Tid → Req) (t0 : Nat) (keep : Option (List String)) {g : G}
+    (h : (sys life).Reach (init reqs t0 keep) g) :
     ∀ t1 t2 k, t1 ≠ t2 → (g.threads t1).req.key = some k → (g.threads t2).req.key = some k →
       (g.threads t1).ran = true → (g.threads t1).req.fails = false →
       (g.threads t2).ran = true → (g.threads t2).req.fails = false →
@@ -169,11 +118,11 @@ theorem successes_a_lifetime_apart (life : Nat) (reqs : Tid → Req) (t0 : Nat) 
   · intro g a g' hr ih hs
     rcases step_cases life hs with ⟨d, _, rfl⟩ | ⟨t, _, hst⟩
     · exact ih
-    · have hf := full_reach life reqs t0 hr
+    · have hf := full_reach life reqs t0 keep hr
       -- the only step that makes a request "completed successfully" is `handlerOk`
       by_cases hok : (g.threads t).pc = .atHandler ∧ (g.threads t).req.fails = false
       · obtain ⟨hpc, hfl⟩ := hok
-        have hg' : g' = g.setThread t { g.threads t with pc := .atSet, ran := true, doneAt := g.now } := by
+        have hg' : g' = g.setThread t { g.threads t with pc := .atSet, ran := true, doneAt := g.now, ans := some (g.threads t).req.resp } := by
           cases hst <;> simp_all
         subst hg'
         have hearly := hf.exec.early t (by simp [hpc, early])
@@ -184,7 +133,7 @@ theorem successes_a_lifetime_apart (life : Nat) (reqs : Tid → Req) (t0 : Nat) 
             (g.threads ta).ran = true → (g.threads ta).req.fails = false → Known.K1 g ta = false →
             (g.threads ta).doneAt + life ≤ g.now := by
           intro ta tb hab hb hta ka kt ra fa kka
-          exact at_most_one_success_partial life reqs t0 hr ta t kka k hta (by simp [hpc, execRegion]) kt ka ra fa
+          exact at_most_one_success_partial life reqs t0 keep hr ta t kka k hta (by simp [hpc, execRegion]) kt ka ra fa
         by_cases h1 : t1 = t
         · subst h1
           have h2 : t2 ≠ t1 := fun h => hne h.symm
@@ -221,95 +170,144 @@ theorem successes_a_lifetime_apart (life : Nat) (reqs : Tid → Req) (t0 : Nat) 
 
 /-! ### same answer -/
 
-/-- **same_answer.** Under every schedule: a request answered from the record (`replay r`) has the
-same key as the execution `r` whose response it receives, that execution completed the handler
-successfully and its response was recorded; the handler was not run for the answered request. (The
-rendering of a replayed answer — status, body and kept headers of `r`'s response — is what the
-correspondence check compares with the real middleware.) -/
-theorem same_answer (life : Nat) (reqs : Tid → Req) (t0 : Nat) {g : G}
-    (h : (sys life).Reach (init reqs t0) g) (t r : Tid) (ho : (g.threads t).out = .replay r) :
-    (g.threads r).req.key = (g.threads t).req.key ∧ (g.threads t).req.key ≠ none ∧
-    (g.threads r).stored = true ∧ (g.threads r).ran = true ∧ (g.threads r).req.fails = false ∧
+/-- **same_answer.** Under every schedule and every KeepResponseHeaders setting: a request answered
+without running the handler (`replay r`) was written exactly the recorded form of the response of
+execution `r` — `r`'s status, `r`'s body and those of `r`'s headers that KeepResponseHeaders selects
+(all of them when it is nil), in `r`'s order; `r` has the same key, completed the handler successfully
+and its response was recorded; the handler was not run for the answered request. -/
+theorem same_answer (life : Nat) (reqs : Tid → Req) (t0 : Nat) (keep : Option (List String)) {g : G}
+    (h : (sys life).Reach (init reqs t0 keep) g) (t r : Tid) (ho : (g.threads t).out = .replay r) :
+    (g.threads t).ans = some (recorded keep (reqs r).resp) ∧
+    (reqs r).key = (reqs t).key ∧ (reqs t).key ≠ none ∧
+    (g.threads r).stored = true ∧ (g.threads r).ran = true ∧ (reqs r).fails = false ∧
     (g.threads t).ran = false := by
-  have hf := full_reach life reqs t0 h
+  have hf := full_reach life reqs t0 keep h
+  obtain ⟨hk, hrq⟩ := const_reach life reqs t0 keep h
   obtain ⟨a, b, c⟩ := hf.exec.replay t r ho
   obtain ⟨d, e, _⟩ := hf.exec.stored r c
-  exact ⟨a, b, c, d, e, hf.exec.noRun t (by simp [ho, noRunOut])⟩
+  have hans := hf.ans.rep t r ho
+  rw [hk, hrq r] at hans
+  rw [hrq r, hrq t] at a; rw [hrq t] at b; rw [hrq r] at e
+  exact ⟨hans, a, b, c, d, e, hf.exec.noRun t (by simp [ho, noRunOut])⟩
 
-def exB : G := (sys 5).run (init (fun _ => ⟨some 0, false, false⟩) 100)
+/-- the executing request itself is written its handler's response -/
+theorem own_answer (life : Nat) (reqs : Tid → Req) (t0 : Nat) (keep : Option (List String)) {g : G}
+    (h : (sys life).Reach (init reqs t0 keep) g) (t : Tid) (ho : (g.threads t).out = .own) :
+    (g.threads t).ans = some (reqs t).resp ∧ (g.threads t).ran = true := by
+  have hf := full_reach life reqs t0 keep h
+  obtain ⟨_, hrq⟩ := const_reach life reqs t0 keep h
+  have := hf.ans.own t ho
+  rw [hrq t] at this
+  exact ⟨this, hf.own t ho⟩
+
+/-- **duplicates_agree.** Any two requests answered from the record of the same execution were written
+the same status, body and kept headers. -/
+theorem duplicates_agree (life : Nat) (reqs : Tid → Req) (t0 : Nat) (keep : Option (List String)) {g : G}
+    (h : (sys life).Reach (init reqs t0 keep) g) (t t' r : Tid)
+    (ho : (g.threads t).out = .replay r) (ho' : (g.threads t').out = .replay r) :
+    (g.threads t).ans = (g.threads t').ans := by
+  rw [(same_answer life reqs t0 keep h t r ho).1, (same_answer life reqs t0 keep h t' r ho').1]
+
+def exB : G := (sys 5).run (init (fun _ => exReq) 100 (some ["x-A"]))
   (List.replicate 12 (Act.thr 0) ++ List.replicate 2 (Act.thr 1))
 
-example : (exB.threads 1).out = .replay 0 ∧ (exB.threads 1).pc = .done := by decide
+example : (exB.threads 1).out = .replay 0 ∧ (exB.threads 1).pc = .done ∧ (exB.threads 0).out = .own := by decide
+example : recorded (some ["x-A"]) exReq.resp = ⟨201, "created", [("X-A", "1"), ("x-a", "2")]⟩ := by decide
 
 /-! ### lookup / lock failures -/
 
 /-- **lock_or_lookup_failure_no_execution.** Under every schedule: a request whose fast-path lookup,
 lock acquisition or second lookup failed (or whose key is invalid) is answered with that error and the
 handler was not run for it. -/
-theorem lock_or_lookup_failure_no_execution (life : Nat) (reqs : Tid → Req) (t0 : Nat) {g : G}
-    (h : (sys life).Reach (init reqs t0) g) (t : Tid)
+theorem lock_or_lookup_failure_no_execution (life : Nat) (reqs : Tid → Req) (t0 : Nat) (keep : Option (List String)) {g : G}
+    (h : (sys life).Reach (init reqs t0 keep) g) (t : Tid)
     (ho : (g.threads t).out = .errGet1 ∨ (g.threads t).out = .errLock ∨ (g.threads t).out = .errGet2 ∨
           (g.threads t).out = .errKey) :
     (g.threads t).ran = false := by
-  have hf := full_reach life reqs t0 h
+  have hf := full_reach life reqs t0 keep h
   apply hf.exec.noRun t
   rcases ho with ho | ho | ho | ho <;> simp [ho, noRunOut]
 
-/-- a failing call is answered with the corresponding error at once (by definition of the step) -/
-theorem fault_gives_error (g g' : G) (t : Tid) (h : stepFault g t = some g') :
-    (g'.threads t).out = .errGet1 ∨ (g'.threads t).out = .errLock ∨ (g'.threads t).out = .errGet2 ∨
-    (g'.threads t).out = .errSet := by
-  cases hpc : (g.threads t).pc <;> simp [stepFault, hpc] at h <;> subst h <;> simp
+def lookErr : Out → Bool
+  | .errGet1 | .errLock | .errGet2 => true
+  | _ => false
 
-def exC : G := (sys 5).run (init (fun _ => ⟨some 0, false, false⟩) 100) [Act.thr 0, Act.thr 0, Act.fault 0]
+/-- **lookup_or_lock_failure_final.** Take any reachable state and any request whose pending fast-path
+lookup, lock acquisition or lookup under the lock is made to fail there. Then, whatever happens
+afterwards (every continuation schedule `bs`, further faults included), that request is answered with
+that error and the handler is never run for it. -/
+theorem lookup_or_lock_failure_final (life : Nat) (reqs : Tid → Req) (t0 : Nat) (keep : Option (List String))
+    {g g1 : G} (h : (sys life).Reach (init reqs t0 keep) g) (t : Tid) (hfault : stepFault g t = some g1)
+    (hpc : (g.threads t).pc = .atGet1 ∨ (g.threads t).pc = .atLock ∨ (g.threads t).pc = .atGet2) (bs : List Act) :
+    lookErr (((sys life).run g1 bs).threads t).out = true ∧
+    (((sys life).run g1 bs).threads t).out = (g1.threads t).out ∧
+    (((sys life).run g1 bs).threads t).ran = false := by
+  have hf := full_reach life reqs t0 keep h
+  have hs1 : step life g (.fault t) = some g1 := hfault
+  have hf1 : Full life g1 := full_step life hf hs1
+  have hearly : early (g.threads t).pc = true := by rcases hpc with h | h | h <;> simp [h, early]
+  have hran0 := (hf.exec.early t hearly).1
+  have h1 : lookErr (g1.threads t).out = true ∧ (g1.threads t).ran = false := by
+    rcases hpc with hp | hp | hp <;> simp [stepFault, hp] at hfault <;> subst hfault <;> simp [lookErr, hran0]
+  have key : Full life ((sys life).run g1 bs) ∧ (((sys life).run g1 bs).threads t).out = (g1.threads t).out ∧
+      (((sys life).run g1 bs).threads t).ran = false := by
+    refine Conc.inv_run (sys life) (fun g' => Full life g' ∧ (g'.threads t).out = (g1.threads t).out ∧ (g'.threads t).ran = false)
+      ?_ ⟨hf1, rfl, h1.2⟩ bs
+    intro ga a gb ⟨hfa, hoa, hra⟩ hs
+    have hs : step life ga a = some gb := hs
+    refine ⟨full_step life hfa hs, ?_⟩
+    rcases step_cases life hs with ⟨d, _, rfl⟩ | ⟨t', _, hst⟩
+    · exact ⟨hoa, hra⟩
+    · have hne : (ga.threads t).out ≠ .pending := by
+        rw [hoa]; intro hp; have := h1.1; rw [hp] at this; simp [lookErr] at this
+      obtain ⟨a1, a2⟩ := out_sticky hfa hst t hne
+      exact ⟨a1.trans hoa, a2.trans hra⟩
+  exact ⟨by rw [key.2.1]; exact h1.1, key.2.1, key.2.2⟩
+
+/-- non-vacuity: the lock acquisition of request 0 fails while request 1 (same key) goes on to execute -/
+example : stepFault ((sys 5).run (init (fun _ => exReq) 100) [Act.thr 0, Act.thr 0]) 0 ≠ none ∧
+    (((sys 5).run (init (fun _ => exReq) 100) [Act.thr 0, Act.thr 0]).threads 0).pc = .atLock := by decide
+
+/-- **fault_gives_error.** A failing `Storage.Get` / `Lock.Lock` / `Storage.Set` call is answered with
+the corresponding error at once; a failing `Lock.Unlock` (it is only logged) leaves the answer, the
+storage and every other request as they were. -/
+theorem fault_gives_error (g g' : G) (t : Tid) (h : stepFault g t = some g') :
+    ((g.threads t).pc = .atGet1 ∧ (g'.threads t).out = .errGet1 ∧ (g'.threads t).pc = .done) ∨
+    ((g.threads t).pc = .atLock ∧ (g'.threads t).out = .errLock ∧ (g'.threads t).pc = .done) ∨
+    ((g.threads t).pc = .atGet2 ∧ (g'.threads t).out = .errGet2) ∨
+    ((g.threads t).pc = .atSet ∧ (g'.threads t).out = .errSet) ∨
+    ((g.threads t).pc = .atUnlock ∧ (g'.threads t).out = (g.threads t).out ∧ (g'.threads t).ans = (g.threads t).ans ∧
+      (g'.threads t).ran = (g.threads t).ran ∧ g'.store = g.store ∧ g'.vals = g.vals ∧
+      ∀ t', t' ≠ t → g'.threads t' = g.threads t') := by
+  cases hpc : (g.threads t).pc <;> simp [stepFault, hpc] at h <;> subst h <;> simp
+  intro t' ht; simp [setThread_threads_ne _ _ ht]
+
+def exC : G := (sys 5).run (init (fun _ => { key := some 0, invalid := false, fails := false }) 100) [Act.thr 0, Act.thr 0, Act.fault 0]
 
 example : (exC.threads 0).out = .errLock ∧ (exC.threads 0).pc = .done ∧ (exC.threads 0).ran = false := by decide
 
 /-! ### other requests are unaffected -/
 
-/-- the only instruction that can block is `lock.mu.Lock()` -/
-theorem stepThr_none_pc {life : Nat} {g : G} {t : Tid}
-    (hk : ∀ t, (g.threads t).pc ≠ .idle → (g.threads t).pc ≠ .atHandlerB → (g.threads t).pc ≠ .done →
-      ∃ k, (g.threads t).req.key = some k)
-    (hnone : stepThr life g t = none) (hnd : (g.threads t).pc ≠ .done) : (g.threads t).pc = .lockAcq := by
-  have hkey := hk t
-  cases hpc : (g.threads t).pc
-  case lockAcq => rfl
-  case done => exact absurd hpc hnd
-  case idle =>
-    simp only [stepThr, hpc] at hnone
-    cases hk' : (g.threads t).req.key <;> simp [hk'] at hnone
-    split at hnone <;> simp at hnone
-  all_goals
-    simp only [stepThr, hpc] at hnone
-    first
-      | (simp at hnone; done)
-      | (split at hnone <;> simp at hnone; done)
-      | (obtain ⟨k, hk'⟩ := hkey (by simp [hpc]) (by simp [hpc]) (by simp [hpc])
-         simp only [hk'] at hnone
-         first
-           | (simp at hnone; done)
-           | (split at hnone <;> simp at hnone))
-
 /-- **others_unaffected.** (1) A request without a key / with a safe method always has an enabled step
 until it is done, that step touches neither storage nor lock table, and it ends having run the
 handler. (2) A step of a request with key k leaves the record and the lock-table entry of every other
-key, and every other thread, untouched. (3) Under every schedule a request is blocked only inside
-`lock.mu.Lock()`, and only by a request with the *same* key that holds the lock. -/
-theorem others_unaffected (life : Nat) (reqs : Tid → Req) (t0 : Nat) {g : G}
-    (h : (sys life).Reach (init reqs t0) g) :
+key (and the recorded response of every other key), and every other thread, untouched. (3) Under every
+schedule an unfinished request is blocked only inside `lock.mu.Lock()`, and only by a request with the
+*same* key that holds that key's lock (which includes a request whose `Unlock` failed). -/
+theorem others_unaffected (life : Nat) (reqs : Tid → Req) (t0 : Nat) (keep : Option (List String)) {g : G}
+    (h : (sys life).Reach (init reqs t0 keep) g) :
     (∀ t, (g.threads t).req.key = none → (g.threads t).req.invalid = false → (g.threads t).pc ≠ .done →
       ∃ g', stepThr life g t = some g' ∧ g'.store = g.store ∧ g'.keys = g.keys ∧ g'.locks = g.locks) ∧
     (∀ t, (g.threads t).req.key = none → (g.threads t).req.invalid = false → (g.threads t).pc = .done →
       (g.threads t).ran = true) ∧
     (∀ t g' k, Step life g t g' → (g.threads t).req.key = some k →
-      (∀ k', k' ≠ k → g'.store k' = g.store k' ∧ g'.keys k' = g.keys k') ∧
+      (∀ k', k' ≠ k → g'.store k' = g.store k' ∧ g'.vals k' = g.vals k' ∧ g'.keys k' = g.keys k') ∧
       (∀ t', t' ≠ t → g'.threads t' = g.threads t')) ∧
-    (∀ t, stepThr life g t = none → (g.threads t).pc ≠ .done →
-      (g.threads t).pc = .lockAcq ∧
+    (∀ t, stepThr life g t = none → (g.threads t).pc ≠ .done → (g.threads t).pc ≠ .leaked →
+      (g.threads t).pc = .lockAcq ∧ (g.threads t).req.key ≠ none ∧
       ∃ t', (g.locks (g.threads t).lk).holder = some t' ∧ (g.threads t').req.key = (g.threads t).req.key) := by
-  have hf := full_reach life reqs t0 h
-  refine ⟨fun t hk hiv hnd => ?_, fun t hk hiv hd => ?_, fun t g' k hst hk => ?_, fun t hnone hnd => ?_⟩
+  have hf := full_reach life reqs t0 keep h
+  refine ⟨fun t hk hiv hnd => ?_, fun t hk hiv hd => ?_, fun t g' k hst hk => ?_, fun t hnone hnd hnl => ?_⟩
   · -- a bypassing thread is at idle or in the handler
     have hpc : (g.threads t).pc = .idle ∨ (g.threads t).pc = .atHandlerB := by
       by_cases h1 : (g.threads t).pc = .idle
@@ -322,7 +320,7 @@ theorem others_unaffected (life : Nat) (reqs : Tid → Req) (t0 : Nat) {g : G}
     · have : stepThr life g t = some (g.setThread t { g.threads t with pc := .atHandlerB }) := by
         simp [stepThr, hpc, hk, hiv]
       exact ⟨_, this, rfl, rfl, rfl⟩
-    · have : stepThr life g t = some (g.setThread t { g.threads t with pc := .done, ran := true, out := if (g.threads t).req.fails then .errHandler else .own }) := by
+    · have : stepThr life g t = some (g.setThread t { g.threads t with pc := .done, ran := true, out := if (g.threads t).req.fails then .errHandler else .own, ans := if (g.threads t).req.fails then none else some (g.threads t).req.resp }) := by
         simp [stepThr, hpc]
       exact ⟨_, this, rfl, rfl, rfl⟩
   · exact hf.byp t hk hiv hd
@@ -332,8 +330,9 @@ theorem others_unaffected (life : Nat) (reqs : Tid → Req) (t0 : Nat) {g : G}
     · intro t' ht
       cases hst <;> simp [setThread_threads_ne _ _ ht]
   · -- the only blocking instruction is lock.mu.Lock()
-    have hpc : (g.threads t).pc = .lockAcq := stepThr_none_pc hf.keyed hnone hnd
-    refine ⟨hpc, ?_⟩
+    have hpc : (g.threads t).pc = .lockAcq := stepThr_none_pc hf.keyed hnone hnd hnl
+    obtain ⟨k0, hk0⟩ := hf.keyed t (by simp [hpc]) (by simp [hpc]) (by simp [hpc])
+    refine ⟨hpc, by simp [hk0], ?_⟩
     simp only [stepThr, hpc] at hnone
     cases hh : (g.locks (g.threads t).lk).holder with
     | none => simp [hh] at hnone
@@ -345,5 +344,13 @@ theorem others_unaffected (life : Nat) (reqs : Tid → Req) (t0 : Nat) {g : G}
       rw [h2] at pa
       have := hf.lock.inj ka kb _ pa pb
       rw [hka, hkb, this]
+
+/-- non-vacuity (blocking, Unlock fault): request 0 executes and records, its `Unlock` fails; after the
+lifetime request 1 (same key) misses the record, and waits in `lock.mu.Lock()` for the leaked lock -/
+def exL : G := (sys 5).run (init (fun _ => exReq) 100)
+  (List.replicate 8 (Act.thr 0) ++ [Act.fault 0, Act.tick 5] ++ List.replicate 5 (Act.thr 1))
+
+example : (exL.threads 0).pc = .leaked ∧ (exL.threads 0).out = .own ∧ (exL.threads 1).pc = .lockAcq ∧
+    (stepThr 5 exL 1).isNone = true ∧ (exL.locks (exL.threads 1).lk).holder = some 0 := by decide
 
 end C17
